@@ -11,11 +11,16 @@ PARSER_FIELDS = {
     'port': ('opt', 'int'), 'path': ('opt', 'bytes'), 'method': ('opt', 'bytes'), 'version': ('opt', 'bytes'),
     'code': ('opt', 'bytes'), 'reason': ('opt', 'bytes'),
     'headers': ('opt', ('dict', 'bytes', ('tuple', 'bytes', 'bytes'))),
+    '_url': ('opt', ('obj', 'Url')),
 }
+URL_FIELDS = {'scheme': ('opt', 'bytes'), 'username': ('opt', 'bytes'), 'password': ('opt', 'bytes'),
+              'hostname': ('opt', 'bytes'), 'port': ('opt', 'int'), 'remainder': ('opt', 'bytes')}
 PARSER_MOD = ['self.' + f for f in PARSER_FIELDS if f != 'type']
 
 
 def add_parser_class(reg):
+    if 'Url' not in reg.classes:
+        reg.klass('Url', py='proxy.http.url:Url', fields=URL_FIELDS)
     reg.klass('HttpParser', py='proxy.http.parser.parser:HttpParser', fields=PARSER_FIELDS)
     # the bookkeeping parser, as a callee: it only touches its own fields.
     # A-PARSE (assumed, the one bounded clause of C01): it does not raise on the well-formed
